@@ -37,7 +37,7 @@ type Scenario struct {
 	RPCs      []RPC  `json:"rpcs"`
 	Cancel    string `json:"cancel,omitempty"` // "" | cancel | deadline
 	Cloner    string `json:"cloner,omitempty"`
-	Bound     int    `json:"bound"`             // preemption bound, -1 unbounded
+	Bound     int    `json:"bound"`                // preemption bound, -1 unbounded
 	EnvGiveUp bool   `json:"env_giveup,omitempty"` // memhttp: explore the ">256KB pending" alternative
 	Opts      string `json:"opts,omitempty"`
 }
@@ -58,17 +58,17 @@ type Event struct {
 // RPCRec is what was observed for one RPC.
 type RPCRec struct {
 	// client side
-	SendAttempt []string // tags handed to SendMsg, in call order
-	SendRes     []string
-	CliRecv     []string // tags obtained from successful receives, in order
-	RecvRes     []string // result of every RecvMsg / Invoke, in order
-	FinalErr    string   // first non-nil result of RecvMsg / the result of Invoke
-	Finals      []string // every non-nil receive result
-	HeaderRes   []string // result of every Header() call
-	HeaderMD    []string
-	TrailerMD   []string // result of every Trailer() call
-	OptHeader   string   // what the grpc.Header option target holds at the end
-	OptTrailer  string
+	SendAttempt  []string // tags handed to SendMsg, in call order
+	SendRes      []string
+	CliRecv      []string // tags obtained from successful receives, in order
+	RecvRes      []string // result of every RecvMsg / Invoke, in order
+	FinalErr     string   // first non-nil result of RecvMsg / the result of Invoke
+	Finals       []string // every non-nil receive result
+	HeaderRes    []string // result of every Header() call
+	HeaderMD     []string
+	TrailerMD    []string // result of every Trailer() call
+	OptHeader    string   // what the grpc.Header option target holds at the end
+	OptTrailer   string
 	NewStreamErr string
 	// handler side
 	HandlerRan     int
@@ -90,9 +90,9 @@ type RPCRec struct {
 
 // Rec is the observation record of one execution.
 type Rec struct {
-	mu     sync.Mutex
-	RPCs   []*RPCRec
-	Events []Event
+	mu        sync.Mutex
+	RPCs      []*RPCRec
+	Events    []Event
 	Cancelled bool
 }
 
